@@ -4,7 +4,7 @@ import json, subprocess, sys, os
 pid, n = sys.argv[1], sys.argv[2]
 steer = " ".join(sys.argv[3:])
 props = {json.loads(l)['id']: json.loads(l) for l in open('/verif/properties.jsonl')}
-tmpl = open('/verif/.build/prompts/seed-template.txt').read()
+tmpl = open('/verif/lib/prompts/seed-template.txt').read()
 flav = {
  'C01': 'a particular literal or escape (lone surrogates, NUL before a digit, U+2028, "</script", numbers near 1e21 / 2^53 / subnormals), a particular operator nesting or token adjacency, a charset/line-limit/format/JSX combination',
  'C02': 'a particular graph shape (cycle, diamond, star re-export conflict or shadowing, mixed ESM/CJS, dynamic import), a particular export form, output format or loader',
